@@ -44,6 +44,16 @@ IfCases == {[fam |-> "ifc", prog |-> IfProg(cq, el), ctx |-> CondCtx,
 EmptyBranchCases == UNION {{[fam |-> "ifc", prog |-> IfProgEmpty(cq, el, k), ctx |-> CondCtx,
                               tags |-> {"if", "emptybranch", "conds:" \o ToString(Len(cq))} \cup (IF el THEN {"else"} ELSE {})]
                              : k \in 1..Len(cq)} : cq \in UNION {[1..n -> {"c00", "c01", "c02", "c06"}] : n \in 1..MaxConds}, el \in BOOLEAN}
+\* exactly one branch: the conditions behind the first truthy one are not evaluated (callbacks in them are not invoked, what
+\* would fail in them does not fail the render) -- the guard idiom {% if n == 0 %}..{% elseif total / n > 2 %}
+GuardConds == {"c00", "c01", "c02", "c03", "c05", "c06"}
+GuardCases == {[fam |-> "guard", prog |-> <<If(<<Spy("sp", "s1", Var(c1)), Spy("sp", "s2", Var(c2)), lastc>>, <<<<T1(65)>>, <<T1(66)>>, <<T1(67)>>>>, <<T1(69)>>, TRUE), T1(46)>>,
+                 ctx |-> CondCtx, tags |-> {"if", "guard"}, spies |-> TRUE]
+               : c1 \in GuardConds, c2 \in GuardConds,
+                 lastc \in {Spy("sp", "s3", LB(TRUE)), Call("nosuchfn", <<>>), Filt("nosuchfilter", Var("c01"), <<>>), Spy("sp", "s3", Call("nosuchfn", <<>>))}}
+              \cup {[fam |-> "guard", prog |-> <<If(<<Bin("==", Var("n"), LI(0)), Bin(">", Bin("/", LI(6), Var("n")), LI(2)), Bin("==", Bin("%", LI(12), Var("n")), LI(0))>>,
+                                                     <<<<T1(65)>>, <<T1(66)>>, <<T1(67)>>>>, <<T1(69)>>, TRUE), T1(46)>>,
+                      ctx |-> ("n" :> VI(n)), tags |-> {"if", "guard", "divide"}, spies |-> FALSE] : n \in {0, 1, 2, 3, 6}}
 \* literal conditions too (no context): the same values written in the template
 LitConds == {LB(FALSE), LB(TRUE), LI(0), LI(1), LS(<<>>), LS(<<97>>), Lit(Null), Arr(<<>>), Arr(<<LI(0)>>),
              Hash(<<>>, <<>>), Hash(<<LS(<<107>>)>>, <<LI(0)>>)}
@@ -196,7 +206,7 @@ NameClashCases ==
               @@ ("t2" :> <<T1(91), Block("b1", <<T1(80), PrintS(Var("y"))>>), Block("b2", <<PrintS(Var("x"))>>), T1(93)>>),
       prog |-> <<Extends(LS(NT.t1)), Set("x", LI(1)), Block("b2", <<T1(60), PrintS(Var("x")), PrintS(Var("y")), T1(62)>>)>>]}
 
-AllCases == NameClashCases \cup NamedCases \cup RecCases \cup GlobalCases \cup IfCases \cup EmptyBranchCases \cup NullCases \cup CompIfCases \cup LitIfCases \cup LoopCases \cup KvCases \cup NestCases \cup Nest3 \cup SetCases
+AllCases == GuardCases \cup NameClashCases \cup NamedCases \cup RecCases \cup GlobalCases \cup IfCases \cup EmptyBranchCases \cup NullCases \cup CompIfCases \cup LitIfCases \cup LoopCases \cup KvCases \cup NestCases \cup Nest3 \cup SetCases
 
 Tps(c) == ("main" :> c.prog) @@ (IF "tps" \in DOMAIN c THEN c.tps ELSE EmptyFn)
 World(c) == MkW(Tps(c), {}, {}, NoFault)
@@ -209,7 +219,8 @@ CaseOf(c) ==
      entry |-> "main", ctx |-> c.ctx,
      runs |-> {[label |-> c.fam, tp |-> Sources(Tps(c), LMin), xcalls |-> [id \in {} |-> 0]]},
      cfg |-> [globals |-> IF "globals" \in DOMAIN c THEN c.globals ELSE EmptyFn],
-     expect |-> [ok |-> ref.ok, out |-> ref.out, err |-> ref.err, calls |-> [id \in {} |-> 0]]]
+     expect |-> [ok |-> ref.ok, out |-> ref.out, err |-> ref.err,
+                 calls |-> IF "spies" \in DOMAIN c /\ c.spies THEN [id \in {"s1", "s2", "s3"} |-> CountOf(ref.calls, id)] ELSE [id \in {} |-> 0]]]
 
 Init == cs \in {c \in AllCases : Ref(c).err # "frag"}
 Next == UNCHANGED cs
